@@ -18,9 +18,10 @@ Script (what the probe does) comes from key=value arguments, or - when none is g
 by env C12_SCRIPT (default: c12_script.json next to the log), an object keyed by ID with the same keys:
 
     dur=MS[/MS...]     sleep; a '/'-separated list is indexed by iteration (last value repeats)
-    rc=N[/N...]        exit status (same indexing)
+    rc=N[/N...]        exit status (same indexing); a negative N means: die by signal -N (default action, no core
+                       file) after END has been logged - the harness then sees a signal death, not an exit status
     tap=a,b,...        print a TAP stream: ok | notok | skip | todo | bail ; 'skipall' prints "1..0 # SKIP";
-                       'none' prints nothing (a TAP test without output)
+                       'none' prints nothing (a TAP test program that dies before it reports anything)
     term=default|handle|ignore
                        handle: SIGTERM handler logs TERM and exits 143; ignore: handler logs TERM and sleeps on,
                        logging TICK every 20 ms from then on (proof of life after the ignored SIGTERM)
@@ -183,6 +184,19 @@ def main() -> int:
         except OSError:
             pass
     ev('END')
+    if rc < 0:
+        try:
+            import resource
+            resource.setrlimit(resource.RLIMIT_CORE, (0, 0))
+        except Exception:
+            pass
+        try:
+            signal.signal(-rc, signal.SIG_DFL)
+        except (OSError, ValueError):
+            pass                # SIGKILL: disposition cannot (and need not) be set
+        os.kill(pid, -rc)
+        time.sleep(10)          # not reached for signals whose default action terminates
+        os._exit(1)
     os._exit(rc & 0xFF)
 
 
